@@ -363,9 +363,17 @@ class GenBackend:
             self.allowed_attrs = ok
         return sorted(k for k in obj.__dict__ if k not in self.allowed_attrs)
 
+    def persistent_attrs(self):
+        return {a[len("self."):] for a in self.g.global_map.values()}
+
+    def drop_persistent(self, obj):
+        for k in list(obj.__dict__):
+            if k in self.persistent_attrs() and k not in ("t", "dt"):
+                del obj.__dict__[k]
+
     def clone_state_into(self, src, dst):
         for k, v in src.__dict__.items():
-            if k in ("t", "dt", "next_phase") or k.startswith("global_"):
+            if k == "next_phase" or k in self.persistent_attrs():
                 dst.__dict__[k] = copy.deepcopy(v)
 
 
@@ -510,9 +518,7 @@ def run_second_faults(be, inp, steps, si, cname, occ, acc):
             fresh = be.new(new_sites())
             if isinstance(be, GenBackend):
                 fresh.set_up(t_start=0, dt_start=0, context={})
-                for kk in list(fresh.__dict__):
-                    if kk.startswith("global_"):
-                        del fresh.__dict__[kk]
+                be.drop_persistent(fresh)
             be.clone_state_into(st, fresh)
             sites2[fname].fail_at = None
             o1 = observe_resume(be, st, 3)
@@ -579,9 +585,7 @@ def run_fault(be, phases, inp, steps, si, cname, occ, allowed, acc, cls=Marker):
     fresh = be.new(sites_b)
     if isinstance(be, GenBackend):
         fresh.set_up(t_start=0, dt_start=0, context={})
-        for k in list(fresh.__dict__):
-            if k.startswith("global_"):
-                del fresh.__dict__[k]
+        be.drop_persistent(fresh)
     be.clone_state_into(st, fresh)
     # continue on the ORIGINAL object with the functions it was constructed with (that is the claim); the fresh
     # stepper, alive at the same time, has its own function objects
